@@ -32,7 +32,7 @@ def burst_ops(rng, i, n, sleeps, kinds=("put", "get", "raw")):
         elif kind == "get":
             ops.append(["get", f"C{i}", f"F{k}"])
         else:
-            ops.append(["raw", f"@C{i}:R{k}={rng.randint(0, 99)}"])
+            ops.append(["raw", f"@C{i}:R{k}={rng.randint(0, 99)}" if rng.random() > 0.05 else rng.choice(["", " ", "  \t"])])      # blank raw items are lines too
     return ops
 
 
@@ -573,3 +573,29 @@ def conn_chunked(rng, T):
         t0.append(["put", "MAIN", "VOL", f"-{20 + i}.0"])
     t0 += [["sleep", t + 31.0 * 4 * (len(unsol) + 1) if max(dev["chunk_gaps"]) > 20 else t + 40.0], ["connected"]]
     return {"kind": "conn", "device": dev, "log_size": 0, "threads": [t0], "pre_register": [1], "final_wait": 0}
+
+
+RAW_TEXTS = ["@MAIN:VOL=-30.0", "@MAIN:ZONENAME=a\nb", "@MAIN:ZONENAME=form\x0cfeed", "@MAIN:ZONENAME=ls\u2028x", "@MAIN:ZONENAME=fs\x1cx", "@MAIN:ZONENAME=nel\x85x",
+             "@MAIN:ZONENAME=a\rb", "  @MAIN:PWR=On ", "", "   ", "@SYS:PWR=?", "@MAIN:ZONENAME=é𝄞", "@MAIN:VOL=Up", "@MAIN:VOL=Up", "x", "@MAIN:ZONENAME=tab\there", "@MAIN:ZONENAME=vt\x0bx"]
+
+
+def api_raw(rng, T):
+    """C01 through the typed API's raw entry point (YncaApi.send_raw) after a successful initialize() against a small healthy receiver"""
+    spec = api_init(rng, T)
+    present = spec["present"][:2]
+    spec["present"] = present
+    spec["device"]["avail"] = {s: "Ready" for s in present}
+    spec["device"]["table"] = device_table(rng, T, ["SYS"] + present, p_answer=0.4)
+    spec["device"]["latency"] = rng.choice([0.0, 0.02, 0.06])
+    spec["device"].pop("unsolicited", None)
+    spec["device"].pop("swallow_first", None)
+    spec["healthy"] = True
+    after = []
+    for i in range(rng.randint(2, 8)):
+        if rng.random() < 0.5:
+            after.append(["sleep", rng.choice([0.05, 0.3, 29.0])])
+        t = rng.choice(RAW_TEXTS)
+        after.append(["send_raw", t if t in ("@MAIN:VOL=Up", "", "   ") else t + str(i)])
+    after += [["sleep", 5.0], ["close", "final"]]
+    spec["after"] = after
+    return spec
